@@ -108,7 +108,8 @@ def detect(ids, props, tier):
         elif mm:
             ps = [mm.group(0)]
         else:
-            ps = [json.load(open(os.path.join(d, "meta.json")))["breaks_property"]]
+            mj = json.load(open(os.path.join(d, "meta.json")))
+            ps = [mj["breaks_property"]] if "breaks_property" in mj else mj["breaks_properties"][:1]
         r = {"id": i, "results": {}}
         rc, out = sh(["git", "apply", os.path.join(d, "patch.diff")], cwd=DREPO)
         if rc != 0:
